@@ -107,8 +107,10 @@ def pr1(ctx, R):
         R.violation(key, up.where(), "a property keeps its first value (guarded store / setdefault) instead of the last one written")
     elif pst:
         R.ok(key, up.where(), "properties[prop] = val unconditionally, in file order")
+    elif [c for c in method_calls_on(prog, up, ("update",)) if isinstance(c[1], tuple) and c[1][0] == "attr" and c[1][2] == "properties"]:
+        R.ok(key, up.where(), "properties.update(pairs in file order): later values replace earlier ones")
     else:
-        raise AnchorMissing("reader.TdmsReader._update_object_properties: store into <object>.properties")
+        R.undecided(key, up.where(), "how the properties of an object are stored was not recognised")
     # both updates happen once per segment, in file order
     rm = prog.func("reader.TdmsReader.read_metadata")
     cfg = ctx.cfg(rm)
